@@ -315,15 +315,24 @@ class Parameters:
         ValueError
             Raised if an expression evaluates to a non-numeric value.
         """
-        for parameter in self.all():
-            if parameter.expression is not None:
+        expression_parameters = [
+            parameter for parameter in self.all() if parameter.expression is not None
+        ]
+        # An expression can refer to an expression parameter which is declared later,
+        # thus we repeat the evaluation until the values do not change anymore.
+        for _ in expression_parameters:
+            changed = False
+            for parameter in expression_parameters:
                 value = self._evaluator(parameter.transformed_expression)
                 if not isinstance(value, (int, float)):
                     raise ValueError(
                         f"Expression '{parameter.expression}' of parameter '{parameter.label}' "
                         f"evaluates to non numeric value '{value}'."
                     )
+                changed |= not (value == parameter.value)
                 parameter.value = value
+            if not changed:
+                break
 
     def get_label_value_and_bounds_arrays(
         self, exclude_non_vary: bool = False
